@@ -715,7 +715,13 @@ let () =
                  | "difference_assign" ->
                    let y = argm () in let my = meet_of y in
                    (* meet(x) \ meet(y) = union over the constraints c of meet(y) of  meet(x) /\ not c;  congruences of y: sampled *)
-                   if my.mempty then (witness := ""; judge kfail ("lost " ^ !witness) (incl_meet dim mo mn))
+                   (* an argument one of whose COMPONENTS is itself empty, under a policy that reduces: reduce() smashes it
+                      first, so the known component-wise defect of difference_assign cannot lose a point; judged under a
+                      kind of its own, which the known finding does not match.  (Under the Direct policy, or when the
+                      argument is empty only as an intersection, the component-wise defect does apply.) *)
+                   if my.mempty && !red <> 'D' && (y.c1.empty || y.c2.empty) then
+                     (witness := ""; judge "op:difference_assign/empty-arg" ("lost although a component of the argument is empty " ^ !witness) (incl_meet dim mo mn))
+                   else if my.mempty then (witness := ""; judge kfail ("lost " ^ !witness) (incl_meet dim mo mn))
                    else if exact my then begin
                      let ycons = my.mcons @ List.map eq_of_cg my.mcgs in
                      List.iter (fun yc -> List.iter (fun nc -> witness := "";
